@@ -76,9 +76,10 @@ func (c *vGC) Init() error {
 
 type vGD struct {
 	g      *vG
-	A      vSvc `wire:"gA"`
-	B      *vGB `wire:""`
-	ByName vSvc `wire:"gC"`
+	A      vSvc  `wire:"gA"`
+	B      *vGB  `wire:""`
+	ByName vSvc  `wire:"gC"`
+	Tool   vTool `wire:""`
 }
 
 func (d *vGD) Naming() string { return "zD" }
@@ -120,6 +121,37 @@ func (p *vGProc) Init() error {
 func (p *vGProc) PostProcessBeforeInitialization(c any, n string) (any, error) { return c, nil }
 func (p *vGProc) PostProcessAfterInitialization(c any, n string) (any, error)  { return c, nil }
 
+// a single-valued interface point with a primary winner and a lazy loser that nobody else needs
+type vTool interface{ Tool() string }
+
+type vGWinner struct{ g *vG }
+
+func (w *vGWinner) Naming() string { return "gWinner" }
+func (w *vGWinner) Tool() string   { return "winner" }
+func (w *vGWinner) Primary()       {}
+
+type vGLoser struct {
+	g *vG
+	D *vGD `wire:""`
+}
+
+func (l *vGLoser) Naming() string { return "gLoser" }
+func (l *vGLoser) Tool() string   { return "loser" }
+func (l *vGLoser) LazyInit()      {}
+func (l *vGLoser) Init() error {
+	l.g.ev = append(l.g.ev, "init:Loser")
+	return nil
+}
+
+// stateless (zero-sized) components with an Init: real Go may give all of them one address
+type vGZ1 struct{}
+type vGZ2 struct{}
+
+var vGZInits [2]int
+
+func (z *vGZ1) Init() error { vGZInits[0]++; return nil }
+func (z *vGZ2) Init() error { vGZInits[1]++; return nil }
+
 type vGRunner struct {
 	g *vG
 	D *vGD `wire:""`
@@ -144,7 +176,9 @@ func VerifAppGraph() {
 	withC := nd.Bool() // C missing: required points of A and B cannot be satisfied
 	withOpt := nd.Bool()
 	proc := &vGProc{g: g}
-	comps := []any{a, b, d, lazy, run, proc}
+	win, lose := &vGWinner{g: g}, &vGLoser{g: g}
+	vGZInits = [2]int{}
+	comps := []any{a, b, d, lazy, run, proc, win, lose, &vGZ1{}, &vGZ2{}}
 	if withC {
 		comps = append(comps, c)
 	}
@@ -224,6 +258,9 @@ func VerifAppGraph() {
 	// C05: exactly-once initialisation, dependencies first, lazy only if needed
 	nd.Assert(count("init:A") == 1 && count("init:B") == 1 && count("init:C") == 1 && count("init:D") == 1, "C05: every eager component is initialised exactly once")
 	nd.Assert(count("init:Lazy") == 0, "C05: a lazy component nobody needs is not initialised")
+	nd.Assert(d.Tool == vTool(win), "C08: the primary candidate wins a single-valued point")
+	nd.Assert(count("init:Loser") == 0 && lose.D == nil, "C05: a lazy component that merely lost the selection for a single-valued point is neither populated nor initialised")
+	nd.Assert(vGZInits[0] == 1 && vGZInits[1] == 1, "C05: every eager component is initialised exactly once, also stateless ones that may share an address")
 	nd.Assert(at("init:C") < at("init:A") && at("init:C") < at("init:B"), "C05: a dependency that does not depend back is initialised first")
 	nd.Assert(at("init:A") < at("init:D") && at("init:B") < at("init:D"), "C05: a dependency that does not depend back is initialised first")
 	nd.Assert(count("run") == 1 && at("run") == len(g.ev)-1, "C13: the runner runs once, after every eager component is initialised")
